@@ -1845,11 +1845,12 @@ template <typename... TArgs>
 HFSM2_CONSTEXPR(14)
 typename DynamicArrayT<T, NC_>::Index
 DynamicArrayT<T, NC_>::emplace(const TArgs&... args) noexcept {
-	HFSM2_ASSERT(_count < CAPACITY);
+	if (_count < CAPACITY) {
+		new (&_items[_count]) Item{args...};
 
-	new (&_items[_count]) Item{args...};
-
-	return _count++;
+		return _count++;
+	} else
+		return CAPACITY; // full, rejected
 }
 
 template <typename T, Long NC_>
@@ -1857,11 +1858,12 @@ template <typename... TArgs>
 HFSM2_CONSTEXPR(14)
 typename DynamicArrayT<T, NC_>::Index
 DynamicArrayT<T, NC_>::emplace(TArgs&&... args) noexcept {
-	HFSM2_ASSERT(_count < CAPACITY);
+	if (_count < CAPACITY) {
+		new (&_items[_count]) Item{::hfsm2::forward<TArgs>(args)...};
 
-	new (&_items[_count]) Item{::hfsm2::forward<TArgs>(args)...};
-
-	return _count++;
+		return _count++;
+	} else
+		return CAPACITY; // full, rejected
 }
 
 template <typename T, Long NC_>
